@@ -16,14 +16,13 @@ RULES = {
 }
 WRAPPERS = {
     'PolyhedraIter::new': (['PolyhedraIter::PolyhedraIter{PolyhedraGen::new(tree), tree}', 'PolyhedraIter::PolyhedraIter{PolyhedraGen::with_root(tree, Tree::get_root_idx(tree)), tree}'], [], 'generator from the root of the tree it is later stepped with'),
-    'PolyhedraIter::skip_subtree': ('PolyhedraGen::skip_subtree(self.iter)', [], 'skips in the wrapped generator'),
     'PolyhedraGen::new': ('PolyhedraGen::with_root(tree, Tree::get_root_idx(tree))', [], 'starts at the root'),
     'PolyhedraGen::skip_subtree': ('DfsPre::skip_subtree(self.iter)', [], 'skips in the underlying depth-first traversal (the predicate stack is cut back by the next step, C09.R3)'),
     'AffTree::polyhedra': ('PolyhedraGen::new(self.tree)', [], 'generator over this tree'),
     'AffTree::polyhedra_iter': ('PolyhedraIter::new(self.tree)', [], 'iterator over this tree'),
     'DfsNodeData::extract': ('tuple(self.depth, self.index, self.n_remaining)', [], '(depth, index, n_remaining) in this order'),
 }
-FLOORS = {'C09.R6': 8, 'C09.R1': 4, 'C09.R2': 11, 'C09.R3': 1, 'C09.R4': 8, 'C09.R5': 10}
+FLOORS = {'C09.R6': 9, 'C09.R1': 4, 'C09.R2': 10, 'C09.R3': 1, 'C09.R4': 8, 'C09.R5': 10}
 EXPLANATION = 'The evaluator and the two region builders implement the same closed half-space per label, for every tree and input (exact arithmetic).'
 DOES_NOT_DECIDE = ('traversals started below the root with PolyhedraGen::with_root (the path above the start node is not reconstructed); disjoint interiors and coverage (set reasoning); '
                    'ordering/depth counters (C13)')
